@@ -14,7 +14,7 @@ import sys
 import numpy as np
 
 sys.path.insert(0, os.path.dirname(os.path.dirname(os.path.abspath(__file__))))
-from translate import startvalues, kernels, c09_kernels  # noqa: E402
+from translate import startvalues, kernels, c09_kernels, heat  # noqa: E402
 from harness import gen, drive  # noqa: E402
 from harness import c01_help  # noqa: E402  (augment: pressure controllers, several ext grids per junction)
 
@@ -29,13 +29,14 @@ CLAIM = {
             "iterates is observed by the monitor (bound 1e-6 with solver tolerances 1e-9), not proved. Monotonicity is "
             "proved for the incompressible Nikuradse law and, in squared absolute pressures, for the isothermal "
             "constant-K level-pipe gas law (generated kernels); with pressure-dependent K, height terms for gases and "
-            "colebrook / swamee-jain friction it is a hypothesis of the theorem. Thermal start values (tfluid_k) are covered by the generated flow fact and the monitor only. "
-            "Axioms (Coq reals): ClassicalDedekindReals.sig_forall_dec, FunctionalExtensionality.functional_extensionality_dep.",
+            "colebrook / swamee-jain friction it is a hypothesis of the theorem. Thermal start values (tfluid_k): two fixed points of the thermal system assembled from the generated kernels (C10's pipeline model, tied to build_system_matrix by C10's correspondence) for the same hydraulic solution coincide when the heat capacity is temperature-independent, every branch flows and every node is downstream of an infeed node (PropsThermal.v, on the maximum principle); stagnant regions and temperature-dependent c_p are outside the theorem (the open stagnant-region findings live exactly there) and are covered by the monitor only. "
+            "Axioms (Coq reals and their classical base): ClassicalDedekindReals.sig_forall_dec, ClassicalDedekindReals.sig_not_dec, FunctionalExtensionality.functional_extensionality_dep, Classical_Prop.classic.",
     "technique": "Coq proof (graph uniqueness theorem over R) + generated source facts + differential monitor",
     "design": "DESIGN.md 4/C08 + design_notes/C08.md",
 }
 GEN = [("StartValueUses", startvalues.generate)] + kernels.gen_entries(["KHydIncompNp", "KHydIncompNb", "KHydCompNp", "KHydCompNb"]) + \
-    [("KCalcLambda", c09_kernels.generate)]
+    [("KCalcLambda", c09_kernels.generate)] + \
+    kernels.gen_entries(["KThermNp", "KThermNb"]) + [("KThermExpr", heat.gen_thermexpr), ("KHooksHeat", heat.gen_hooks)]
 
 CRASHES = ("IndexError", "KeyError", "ValueError", "TypeError", "AttributeError", "ZeroDivisionError")
 TIGHT = dict(tol_p=1e-9, tol_m=1e-9, tol_res=1e-6, iter=200)
@@ -298,6 +299,8 @@ def run(ctx):
             ctx.broken("translator", name, repr(e))
     proved = ctx.prove("C08")
     proved = ctx.prove("C08", props="PropsDamping") and proved     # driver-model theorem shared with C05
+    proved = ctx.prove("C08", props="PropsThermal") and proved     # thermal uniqueness over C10's pipeline model
+    proved = ctx.prove("C08", props="PropsSensitivity") and proved # sqrt(tol) sensitivity of nearly stagnant flows
     rng = ctx.rng
     # fixed mix: ordinary generated nets + the low-flow meshes in which automatic damping rejects steps
     mult = 1 if ctx.quick else 14
